@@ -170,7 +170,7 @@ func c12AMinuteLater(rt *rapid.T) string {
 
 func TestC12(t *testing.T) {
 	V.Rule("lab: rapid state machines over 2-8 simultaneous client connections to one TCP listener, all from one loopback address (one address of the process's private block stands in for 127.0.0.1), each request announcing a Via sent-by drawn from a set of 1-3 values that are shared between connections (equal sent-by on different connections is the common case), with or without rport, pairwise distinct branches that share a stem and end in a small running number (one is often a prefix of another), listen entries with received-support on and off; requests go to UDP and TCP backends; the backends answer outstanding transactions in any order across connections, 1xx (0-3 per transaction) before the single final response, INVITE and non-INVITE, CANCEL of a pending INVITE (same branch, answered independently); unrelated UDP traffic and new connections in between; now and then a sent-by that names the real source port of another live connection, and once per history up to 160 complete transactions on the connections while others stay pending; on a separate instance a user agent connection and the connection to a TCP backend carry a provisional response, stay idle for 5.3 s (thorough 7.5 s) and must then still carry the final response. unit: a Proxy object driven synchronously through the product's own steps with 2-8 scripted connections sharing a sent-by, the once-a-minute sweep of the transport table forced between requests and between answers (the sweep clock moved back by 61 s), answers in a drawn order. Oracle: every response is read on the connection whose request it answers and on no other connection; nothing is dialled to the announced sent-by address or to (client address, sent-by port), where the harness listens. non-trivial = history with >= 2 connections sharing a sent-by and >= 2 transactions open at once answered in another order than sent; distinct by history")
-	V.Require("response with all Via values on one line", "a client went away with a transaction pending; the others are served as before", "udp backend answers from another socket than it listens on", "unit: the transport table swept while transactions were pending", "CANCEL with the INVITE's branch, both answered", ">= 70 transactions completed while others stayed pending", "sent-by names the source port of another live connection", "response after a connection stayed idle for > 5 s", "a branch is a prefix of another branch of the history", "connections share a sent-by", ">=2 transactions open at once", "answered out of order", "provisional before final", "non-INVITE with provisional", "support:off", "support:on", "tcp backend", "udp backend")
+	V.Require("responses to requests a next hop sent over the connection the proxy had opened to it", "response with all Via values on one line", "a client went away with a transaction pending; the others are served as before", "udp backend answers from another socket than it listens on", "unit: the transport table swept while transactions were pending", "CANCEL with the INVITE's branch, both answered", ">= 70 transactions completed while others stayed pending", "sent-by names the source port of another live connection", "response after a connection stayed idle for > 5 s", "a branch is a prefix of another branch of the history", "connections share a sent-by", ">=2 transactions open at once", "answered out of order", "provisional before final", "non-INVITE with provisional", "support:off", "support:on", "tcp backend", "udp backend")
 	rcheck(t, "a-minute-later", V.N(300, 3000), func(rt *rapid.T) {
 		V.Class("unit: the transport table swept while transactions were pending")
 		if f := c12AMinuteLater(rt); f != "" {
@@ -203,6 +203,80 @@ func TestC12(t *testing.T) {
 			V.Violation(t, "", nil, "%s", f)
 		}
 	}()
+
+	// A TCP connection the proxy opened itself (to a next hop) is a connection like
+	// any other once the peer sends requests of its own over it: the responses to
+	// those requests return on it.
+	rcheck(t, "hop-connection", V.N(20, 200), func(rt *rapid.T) {
+		entry := rapid.IntRange(0, 1).Draw(rt, "listen entry")
+		l := s.in.cfg.Listens[entry]
+		ua := s.uas2[rapid.IntRange(0, 3).Draw(rt, "ua")]
+		usend := func(b []byte) error { return ua.sendUDP(l.Addr, l.UDPPort, b) }
+		hopIP, hopPort := s.ip(24), 5070
+		// 1. the user agent's request, routed to the TCP hop: the proxy opens (or re-uses) its connection
+		id := s.nextID("c12h-")
+		wire := []byte(fmt.Sprintf("OPTIONS sip:x@elsewhere.example SIP/2.0\r\nVia: SIP/2.0/UDP %s:6010;branch=z9hG4bK%s\r\nRoute: <sip:%s:%d;transport=tcp;lr>\r\nFrom: <sip:a@b>;tag=1\r\nTo: <sip:x@elsewhere.example>\r\nCall-ID: %s\r\nCSeq: 1 OPTIONS\r\nContent-Length: 0\r\n\r\n", ua.ip, id, hopIP, hopPort, id))
+		s.model.learnRequest(s.model.transport(entry, "udp"), ua.ip, &AMsg{IsReq: true, Hdrs: []AHdr{{Kind: hVia, Vias: []AVia{{Host: ua.ip}}}}})
+		s.in.expect(wire)
+		usend(wire)
+		rs, err := s.in.settle(usend, 1)
+		if _, lost := err.(labLost); lost {
+			failf(rt, "%v", err)
+		} else if err != nil {
+			V.HarnessError(rt, "%v", err)
+		}
+		got := labMessages(rs)
+		if len(got) != 1 || got[0].tcp == nil || got[0].ep == nil || got[0].ep.ip != hopIP || got[0].ep.port != hopPort {
+			return // where a request goes is C03's subject
+		}
+		conn := got[0].tcp
+		// 2. 1-3 requests of the hop's own over that connection, routed to the user agent (which the proxy knows)
+		n := rapid.IntRange(1, 3).Draw(rt, "requests of the hop")
+		var at []labRx
+		for i := 0; i < n; i++ {
+			rid := s.nextID("c12hr-")
+			rport := rapid.SampledFrom([]string{"", ";rport"}).Draw(rt, "rport")
+			req := []byte(fmt.Sprintf("%s sip:u@%s:6010 SIP/2.0\r\nVia: SIP/2.0/TCP %s:%d;branch=z9hG4bK%s%s\r\nRoute: <sip:%s:6010;lr>\r\nFrom: <sip:hop@hop.example>;tag=h\r\nTo: <sip:u@nomatch.example>\r\nCall-ID: %s\r\nCSeq: 1 %s\r\nContent-Length: 0\r\n\r\n", "INVITE", ua.ip, hopIP, hopPort, rid, rport, ua.ip, rid, "INVITE"))
+			s.in.expect(req)
+			if err := conn.sendStrict(req); err != nil {
+				failf(rt, "%v", err)
+			}
+			rs, err := s.in.settle(conn.sendStrict, 1)
+			if _, lost := err.(labLost); lost {
+				failf(rt, "%v", err)
+			} else if err != nil {
+				V.HarnessError(rt, "%v", err)
+			}
+			g := labMessages(rs)
+			if len(g) != 1 || g[0].ep != ua || len(g[0].msg.Entries(hVia)) != 2 {
+				return // where it goes and whether the proxy inserts itself is C03's / C06's subject
+			}
+			at = append(at, g[0])
+		}
+		// 3. the user agent answers, in any order, 180 then 200 each
+		V.Class("responses to requests a next hop sent over the connection the proxy had opened to it")
+		V.NonTrivial(fmt.Sprintf("hopconn|%d|%s", entry, id))
+		for _, k := range rapid.Permutation(at).Draw(rt, "answer order") {
+			for _, code := range []int{180, 200} {
+				resp := buildResponse(k.msg, code, "Answer", "tu", "")
+				s.in.expect(resp)
+				if err := usend(resp); err != nil {
+					V.HarnessError(rt, "ua send: %v", err)
+				}
+				rs, err := s.in.settle(usend, 1)
+				if _, lost := err.(labLost); lost {
+					failf(rt, "%v", err)
+				} else if err != nil {
+					V.HarnessError(rt, "%v", err)
+				}
+				g := labMessages(rs)
+				V.Eval()
+				if len(g) != 1 || g[0].tcp != conn {
+					failf(rt, "the %d to a request the next hop %s:%d had sent over the connection the proxy opened to it (%s) must be written to that connection and nowhere else; receptions:\n%s", code, hopIP, hopPort, conn, labDescribe(g))
+				}
+			}
+		}
+	})
 
 	totalBursts := 0
 	rcheck(t, "histories", V.N(250, 2500), func(rt *rapid.T) {
